@@ -695,15 +695,21 @@ pub async fn run_reader(cell: StreamCell, stream: usize, end: usize, ops: Vec<RO
                             break;
                         }
                         Some(Ok(k)) => {
+                            let mut bad = false;
                             for (i, b) in buf[..k].iter().enumerate() {
                                 let want = pay(stream, dir, off + i);
                                 if *b != want {
                                     log.app(AppEv::DataMismatch { stream, end, offset: off + i, got: *b, want });
+                                    bad = true;
                                     break;
                                 }
                             }
                             off += k;
                             log.app(AppEv::ReadOk { stream, end, n: k });
+                            if bad {
+                                // the integrity oracle reports it; reading on could go on for ever (a stream that repeats itself)
+                                return;
+                            }
                         }
                     }
                     if !to_eof {
@@ -748,12 +754,18 @@ pub async fn run_reader(cell: StreamCell, stream: usize, end: usize, ops: Vec<RO
                             log.app(AppEv::ReadEof { stream, end });
                             eof = true;
                         } else {
+                            let mut bad = false;
                             for (i, b) in seen.iter().enumerate() {
                                 let want = pay(stream, dir, off + i);
                                 if *b != want {
                                     log.app(AppEv::DataMismatch { stream, end, offset: off + i, got: *b, want });
+                                    bad = true;
                                     break;
                                 }
+                            }
+                            if bad {
+                                log.app(AppEv::ReadOk { stream, end, n: c });
+                                return;
                             }
                             if seen.len() > c {
                                 log.app(AppEv::Note(format!("exposed {stream} {end} {}", off + seen.len())));
